@@ -134,7 +134,7 @@ fn c16_acl_e3_h3() {
     acl::<3, 3>()
 }
 
-// verif: prop=C16 tier=thorough cap=3000 mem=30 bound="every ACL with exactly 4 entries x every sequence of 1..5 hops" fns="AclPolicy::matches" stubs="none"
+// verif: prop=C16 tier=quick cap=1200 bound="every ACL with exactly 4 entries x every sequence of 1..5 hops" fns="AclPolicy::matches" stubs="none"
 #[kani::proof]
 #[kani::unwind(8)]
 fn c16_acl_e4_h5() {
